@@ -342,7 +342,7 @@ def guided_check(prop, num=None):
     """Behaviours of MintSteps (TLC -simulate) replayed on the real mint as fixed schedules with the behaviour's Lightning answers
     scripted; every execution validated by MintAccept, its call sequence by MintStepsTrace."""
     import steps
-    num = num or ((8 if tier() == "quick" else 150) if prop == "C03" else (25 if tier() == "quick" else 400))
+    num = num or ((8 if tier() == "quick" else 60) if prop == "C03" else (25 if tier() == "quick" else 200))
     sd0 = spec_copy(rundir("%s_guidedgen_%s" % (prop, tier())))
     scns, stats = steps.guided_scenarios(sd0, guided_templates_c03() if prop == "C03" else guided_templates(), num, seed())
     cov, nviol, dt = check(prop, scns, sub="_guided", design=False)
